@@ -34,6 +34,9 @@ type Finding struct {
 	Witness  string `json:"witness,omitempty"` // path relative to /verif
 	Commit   string `json:"commit,omitempty"`
 	What     string `json:"what"`
+	// NoReplay: the witness is kept for the record but not executed at every run (CPU-budget witnesses
+	// cost 120 CPU-seconds each); the finding is matched by signature / input hash only.
+	NoReplay bool `json:"noreplay,omitempty"`
 }
 
 type findingsFile struct {
@@ -159,7 +162,14 @@ func runBatch(self string, p *Prop, seed int64, tier string, b batch, base strin
 		case (open.Ev == "cpu" || open.Ev == "mem") && p.BudgetOutOfDomain:
 			co.Res = Result{Verdict: Skip, Counters: map[string]int64{"skipped_budget_overruns_" + open.Ev: 1}, Reports: []string{fmt.Sprintf("case %d (input hash %016x) exhausted the %s budget; not judged by this property", open.I, HashBytes(open.Input), open.Ev)}}
 		case open.Ev == "cpu":
-			co.Res = Result{Verdict: Violation, Sig: "cpu-budget", Msg: fmt.Sprintf("CPU budget exceeded (%.0f s consumed)", open.CPU), Stack: mainGoroutine(string(stderr))}
+			st := mainGoroutine(string(stderr))
+			sig := "cpu-budget"
+			if strings.Count(string(stderr), "layout.columnsLayout(") >= 3 {
+				// the budget ran out inside three or more nested multi-column layouts: the known
+				// multiplicative blow-up of nested column balancing, distinguished from every other overrun
+				sig = "cpu-budget@nested-columnsLayout"
+			}
+			co.Res = Result{Verdict: Violation, Sig: sig, Msg: fmt.Sprintf("CPU budget exceeded (%.0f s consumed)", open.CPU), Stack: st}
 		case open.Ev == "mem":
 			co.Res = Result{Verdict: Violation, Sig: "mem-budget", Msg: "heap budget (8 GiB) exceeded", Stack: mainGoroutine(string(stderr))}
 		default:
@@ -331,6 +341,11 @@ func DriverMain(self, propID, tier string, seed int64) int {
 			}
 			var compact bytes.Buffer
 			json.Compact(&compact, w.Input)
+			if f.NoReplay && f.Status == "open" {
+				witnessHashes[HashBytes(compact.Bytes())] = f
+				addKnown(f)
+				continue
+			}
 			buf.Write(compact.Bytes())
 			buf.WriteByte('\n')
 			idx = append(idx, f)
